@@ -41,9 +41,9 @@ pub proof fn lemma_set_bit(w: u64, b: u64)
 
 pub proof fn lemma_clear_bit(w: u64, b: u64)
     requires b < 64,
-    ensures forall|c: u64| c < 64 ==> #[trigger] bit_set(w & !(1u64 << b), c) == (bit_set(w, c) && c != b),
+    ensures forall|c: u64| #![trigger bit_set(w & !(1u64 << b), c)] #![trigger bit_set(w, c)] c < 64 ==> bit_set(w & !(1u64 << b), c) == (bit_set(w, c) && c != b),
 {
-    assert forall|c: u64| c < 64 implies #[trigger] bit_set(w & !(1u64 << b), c) == (bit_set(w, c) && c != b) by {
+    assert forall|c: u64| #![trigger bit_set(w & !(1u64 << b), c)] #![trigger bit_set(w, c)] c < 64 implies bit_set(w & !(1u64 << b), c) == (bit_set(w, c) && c != b) by {
         assert(((w & !(1u64 << b)) >> c) & 1 == 1 <==> ((w >> c) & 1 == 1 && c != b)) by(bit_vector) requires b < 64, c < 64;
     }
 }
